@@ -28,6 +28,8 @@ SNIPPETS = [
     "int\tf(void)\n{\n\tt_a\tx;\n\n\tx = (t_a){1, 2};\n\tx.a = sizeof(t_a) * sizeof x;\n\treturn ((int)x.a->b[2](3));\n}\n",
     "int\tf(void)\n{\n\tchar\t*s;\n\n\ts = \"a\" \"b\";\n\tif (s)\n\t{\n\t\twhile (*s)\n\t\t\ts++;\n\t}\n\telse if (!s)\n\t\treturn (1);\n\telse\n\t\treturn (2);\n\treturn (0);\n}\n",
     "int\tf(void)\n{\n\treturn (a && -b || ~c);\n}\n", "/* c */ int\ta; // d\n/*\n** e\n*/\n",
+    "typedef struct s_toto\tt_toto;\nunion u_toto\t\t\t\tvar;\nint\t\t\t\t\t\t\tg_int, g_b, *g_c[2];\n",
+    "int\tf(void)\n{\n\tint\ta, b;\n\tchar\t*c, **d;\n\n\treturn (0);\n}\n",
 ]
 
 
@@ -63,6 +65,13 @@ def cases_for(rnd, nprog, nprefix, nedit, nsamples=0, all_prefix_below=0):
             sp2 = pipeline.token_spans(e, name)
             if sp2:
                 out.extend((e2, name, 0) for e2 in pipeline.edits(e, sp2, rnd, 1))
+    # minimised past failures (corpus/C05/*.json) run first on every tier
+    import glob as _glob
+    import json as _json
+    for pth in sorted(_glob.glob(os.path.join(common.VERIF, "corpus", "C05", "*.json"))):
+        with open(pth) as f:
+            d = _json.load(f)
+        out.insert(0, (d["src"], d["name"], 0))
     # constructs outside the family G: every token prefix of each snippet, as .c and as .h, with and without header
     import impl
     for sn in SNIPPETS:
